@@ -7,8 +7,13 @@ byte 3; for address attributes family byte 1 <=> length 8, 2 <=> length 20); a r
 an allowed length is never refused as WrongAttributeImplementation / Truncated / TooLarge; the 19 TYPE constants
 are the IANA codes and pairwise distinct; fixed-size attributes report the length their decoder demands;
 constructors enforce the same upper limits as the decoders; no address-normalising std API is reachable from an
-attribute codec.  NOT decided: field-level decode/encode agreement and decode(encode(v)) = v (run-time values),
-UTF-8 acceptance (delegated to from_utf8)."""
+attribute codec; decode(to_raw(v)) = v per attribute type: to_raw and the type's decoder analysed back to back on one symbolic
+in-limit value in content-tracking mode, every accepting return must hand back each field as the original field (numbers
+entailed equal - a known but unequal function of the original is a violation -, text / byte fields the same identified
+bytes).  Decided today for 14 of the 19 types; the two address attributes (std::net values are opaque), the two element-wise
+lists and the xor-ed FINGERPRINT are listed in the evidence as not decided.  NOT decided: that decode(to_raw(v)) is
+*accepted* for every in-limit v beyond the limit tables above (UTF-8 acceptance is delegated to from_utf8), re-encoding
+stability of decoded values, the undecided types."""
 import re
 from absint.lin import Lin, norm_eq
 from absint.values import *
